@@ -56,7 +56,8 @@ check('C05',
 check('C19',
       'Theorems on the grid model (any points): dt = elapsed time / unit, dt > 0 for increasing points, Dt = prefix sums, restricted '
       'grid = index-consistent subset of [s,e) in order with the sub-arrays, coarse groups cover every fine step of a spanned window '
-      'and coarse dt is the sum, values_to_grid gives the value of the unique containing interval / None outside / rejects overlap. '
+      'and coarse dt is the sum, a restricted grid restricted again is the grid restricted to the intersection of the windows (indices of '
+      'the original grid), values_to_grid gives the value of the unique containing interval / None outside / rejects overlap. '
       'Grid.v is compared with Timegrid (timepoints, dt, Dt, I, restricted and coarse grids, values_to_grid incl. rejection) on DST '
       'and anchored-frequency grids in four zones; the calendar hypotheses (strictly increasing, first point = start, before end) and '
       'price pass-through are evaluated on the implementation on every case.',
